@@ -205,6 +205,9 @@ func VP_C05_bitmap_csum_range() {
 	gdt := groupDescriptors{descriptors: []groupDescriptor{{blockBitmapLocation: 3, inodeBitmapLocation: 4, inodeTableLocation: 5, size: 64}}}
 	fsys := &FileSystem{superblock: sb, groupDescriptors: &gdt, backend: dev, blockGroups: 1}
 	raw := vp.Bytes("bitmap", 1024)
+	// (an all-zero bitmap with seed 0 has checksum 0 over any length: keep the witness away from it)
+	vp.Assume(seed != 0)
+	vp.Assume(raw[100] != 0)
 	bm := bitmap.FromBytes(raw)
 	vp.NoPanic()
 	err := fsys.writeBlockBitmap(bm, 0)
